@@ -123,7 +123,9 @@ CHECKS = [
                     'simulator-owned hash seed, enumeration order and RNG. After finalisation the -x PDB, every *.itp and the .top are '
                     'parsed by independent readers: k-th coordinate record == k-th [atoms] line of the type named for that molecule, '
                     '[molecules] in coordinate order with correct counts, every type file included exactly once and present, and the '
-                    'ITP text each molecule of a shared type would produce at write time is identical.',
+                    'ITP text each molecule of a shared type would produce at write time is identical. A library-level part writes systems '
+                    'of history-made molecules (node order, keys and atom ids disagreeing) with the real PDB/GRO and ITP writers and '
+                    'compares them atom for atom.',
             'design_ref': 'DESIGN.md 4/C03, appendix C',
         },
         'level_note': 'Inputs and option sets are sampled from derived structures of 1-4 chains of 2-12 residues. Residue numbers are '
